@@ -114,15 +114,20 @@ RV = 'res_view(r)'
 CLOSURE = r"|s: &str| -> (r: Result<Cow<str>, Error>) ensures res_view(r) == %s(s@) { \1 }"
 
 
+OWN = {'Nickname': 'C06', 'OpaqueString': 'C05', 'UsernameCaseMapped': 'C04', 'UsernameCasePreserved': 'C04'}
+
+
 def fast(name, getter, prep, enf, cmp_):
     """PrecisFastInvocation impl: same contracts as the instance methods; the lazily created static
     profile is reached through `getter`, extracted by signature only (lazy_static! is macro-generated)."""
     return [
         Fn(getter, ret='r', mode='sig'),
         Impl(r'impl\s+PrecisFastInvocation\s+for\s+%s\b' % name, lift='fast_%s_' % name, fns=[
-            Fn('prepare', ret='r', head=FACTS, requires=[INTO_S], ensures=[('C16.fast_prepare', 'res_view(r) == %s' % prep)]),
-            Fn('enforce', ret='r', head=FACTS, requires=[INTO_S], ensures=[('C16.fast_enforce', 'res_view(r) == %s' % enf)]),
-            Fn('compare', ret='r', head=FACTS, ensures=[('C16.fast_compare', 'r == %s' % cmp_)]),
+            # the static form is the same operation of the same profile: the clause also counts for the property that
+            # states what that profile's prepare/enforce (C04/C05/C06) and compare (C07) return
+            Fn('prepare', ret='r', head=FACTS, requires=[INTO_S], ensures=[('C16+%s.fast_prepare' % OWN[name], 'res_view(r) == %s' % prep)]),
+            Fn('enforce', ret='r', head=FACTS, requires=[INTO_S], ensures=[('C16+%s.fast_enforce' % OWN[name], 'res_view(r) == %s' % enf)]),
+            Fn('compare', ret='r', head=FACTS, ensures=[('C16+C07.fast_compare', 'r == %s' % cmp_)]),
         ]),
     ]
 
